@@ -82,7 +82,7 @@ theorem C17_scan_exact (pfx f : Path) (b : BodyScan) (st : Index) :
 theorem C17_never (f : Path) (b : BodyScan) (avail : String → Bool) (u : Undeclared)
     (h : u ∈ scanFindings f b avail) :
     u.name ∉ b.declared ∧ avail u.name = true ∧
-    (∀ dl, lookupLast b.locals u.name = some dl → ¬ dl < u.line) ∧
+    (∀ dl, lookupFirst b.locals u.name = some dl → ¬ dl < u.line) ∧
     ∃ r ∈ b.refs, u.name = r.name ∧ u.line = r.line ∧ u.startChar = r.startChar ∧ u.endChar = r.endChar := by
   unfold scanFindings at h
   rw [List.mem_map] at h
@@ -100,7 +100,7 @@ theorem C17_never (f : Path) (b : BodyScan) (avail : String → Bool) (u : Undec
 /-- **C17 (always).** Every visited reference meeting the three conditions is flagged. -/
 theorem C17_always (f : Path) (b : BodyScan) (avail : String → Bool) (r : NameRef)
     (hr : r ∈ b.refs) (hd : r.name ∉ b.declared) (hav : avail r.name = true)
-    (hloc : ∀ dl, lookupLast b.locals r.name = some dl → ¬ dl < r.line) :
+    (hloc : ∀ dl, lookupFirst b.locals r.name = some dl → ¬ dl < r.line) :
     Undeclared.mk r.name f r.line r.startChar r.endChar b.fnName b.fnLine ∈ scanFindings f b avail := by
   unfold scanFindings
   rw [List.mem_map]
@@ -110,13 +110,13 @@ theorem C17_always (f : Path) (b : BodyScan) (avail : String → Bool) (r : Name
   unfold BodyScan.candidate
   simp only [Bool.and_eq_true, Bool.not_eq_true', List.contains_eq_mem, decide_eq_false_iff_not]
   refine ⟨hd, ?_⟩
-  cases hl : lookupLast b.locals r.name with
+  cases hl : lookupFirst b.locals r.name with
   | none => rfl
   | some dl => simp [hloc dl hl]
 
 /-- a module-level or imported name is never flagged (it is bound "at line 0") -/
 theorem C17_module_names_never (f : Path) (b : BodyScan) (avail : String → Bool) (n : String)
-    (hn : lookupLast b.locals n = some 0) (hpos : ∀ r ∈ b.refs, 0 < r.line) :
+    (hn : lookupFirst b.locals n = some 0) (hpos : ∀ r ∈ b.refs, 0 < r.line) :
     ∀ u ∈ scanFindings f b avail, u.name ≠ n := by
   intro u hu hname
   obtain ⟨_, _, hloc, r, hr, _, hrl, _, _⟩ := C17_never f b avail u hu
@@ -125,10 +125,78 @@ theorem C17_module_names_never (f : Path) (b : BodyScan) (avail : String → Boo
   have h2 := hpos r hr
   omega
 
-/-- the LAST binding of a name decides (`HashMap::insert` overwrites): a name bound on an earlier
-    line and re-bound on a later one is treated as not yet bound in between -/
-theorem C17_rebinding_uses_last_line :
-    lookupLast [("x", 3), ("x", 10)] "x" = some 10 := by decide
+theorem minLine_le : ∀ (xs : List Nat) (acc : Option Nat) (m : Nat), minLine acc xs = some m →
+    (∀ a, acc = some a → m ≤ a) ∧ (∀ x ∈ xs, m ≤ x) := by
+  intro xs
+  induction xs with
+  | nil =>
+    intro acc m h
+    simp only [minLine] at h
+    constructor
+    · intro a ha
+      rw [h] at ha
+      cases ha
+      exact Nat.le_refl _
+    · intro x hx
+      cases hx
+  | cons x xs ih =>
+    intro acc m h
+    cases acc with
+    | none =>
+      simp only [minLine] at h
+      obtain ⟨h1, h2⟩ := ih (some x) m h
+      constructor
+      · intro a ha; cases ha
+      intro y hy
+      rcases List.mem_cons.mp hy with rfl | hy
+      · exact h1 _ rfl
+      · exact h2 y hy
+    | some a =>
+      simp only [minLine] at h
+      obtain ⟨h1, h2⟩ := ih (some (min a x)) m h
+      have := h1 _ rfl
+      constructor
+      · intro b hb; cases hb; omega
+      intro y hy
+      rcases List.mem_cons.mp hy with rfl | hy
+      · omega
+      · exact h2 y hy
+
+theorem minLine_some_of_ne_nil : ∀ (xs : List Nat) (acc : Option Nat), (xs ≠ [] ∨ acc ≠ none) →
+    ∃ m, minLine acc xs = some m := by
+  intro xs
+  induction xs with
+  | nil =>
+    intro acc h
+    cases acc with
+    | none => rcases h with h | h <;> exact absurd rfl h
+    | some a => exact ⟨a, rfl⟩
+  | cons x xs ih =>
+    intro acc _
+    cases acc with
+    | none => simp only [minLine]; exact ih (some x) (Or.inr (by simp))
+    | some a => simp only [minLine]; exact ih (some (min a x)) (Or.inr (by simp))
+
+/-- **C17 (a local variable bound on an earlier line is never flagged)** — whatever else binds the
+    name again further down: the FIRST binding counts (since the repair of `collect_local_variables`;
+    before, `HashMap::insert` kept the last binding and uses between two bindings were flagged). -/
+theorem C17_bound_earlier_never (f : Path) (b : BodyScan) (avail : String → Bool) (n : String) (dl : Nat)
+    (hb : (n, dl) ∈ b.locals) :
+    ∀ u ∈ scanFindings f b avail, u.name = n → ¬ dl < u.line := by
+  intro u hu hname hlt
+  obtain ⟨_, _, hloc, _⟩ := C17_never f b avail u hu
+  subst hname
+  have hmem : dl ∈ (b.locals.filter (fun p => p.1 == u.name)).map (·.2) :=
+    List.mem_map.mpr ⟨(u.name, dl), List.mem_filter.mpr ⟨hb, by simp⟩, rfl⟩
+  have hne : (b.locals.filter (fun p => p.1 == u.name)).map (·.2) ≠ [] := by
+    intro he; rw [he] at hmem; cases hmem
+  obtain ⟨m, hm⟩ := minLine_some_of_ne_nil _ none (Or.inl hne)
+  have hle := (minLine_le _ none m hm).2 dl hmem
+  have := hloc m hm
+  omega
+
+/-- the former behaviour, as a fact about lists: the last binding of `x` is line 10, the first 3 -/
+example : lookupFirst [("x", 3), ("x", 10)] "x" = some 3 := by decide
 
 /-- which visited expression forms yield references (the "plain uses" of the statement): call
     target and positional arguments, attribute base, operands, subscript value and index,
